@@ -80,6 +80,15 @@ CLAIMED = {
             "without a timeout). Does not compare session JSON before/after as an observed fact nor cover faults inside ReadSession.",
             "path enumeration with interprocedural root-sensitive write-effect summaries (go/ssa + CHA), guard dominance, finite-domain abstract interpretation of Accepts",
             "DESIGN.md §4 C10"),
+    "C06": ("Structural necessary conditions of 'query-based group membership matches the contact': an interprocedural, "
+            "root-sensitive dirty/clean may-dataflow over ~4600 function summaries proving that session start, resume and "
+            "modifiers.Apply never return successfully with a queryable contact property changed after the last "
+            "Contact.ReevaluateQueryBasedGroups (Modifier.Apply is dirty exactly when it returns true; nil-ness of the trigger "
+            "parameter is propagated; writes to freshly read contacts are ignored); the non-active-contact clauses of "
+            "ReevaluateGroups/CheckQueryBasedMembership; every query group is re-checked; both call sites report changes. Does "
+            "not decide that the evaluator's answer is right (C15) nor asset loading.",
+            "interprocedural dirty/clean dataflow over go/ssa with CHA dispatch and object-root sensitivity, guard dominance",
+            "DESIGN.md §4 C06"),
 }
 
 NOT_APPLICABLE = {}
